@@ -22,6 +22,7 @@ func init() {
 			Assumptions: []string{"crypto/x509 chain verification, math/big and crypto hash implementations", "subtle.ConstantTime* return 1 exactly on equality"},
 			Trusted:     []string{"go/packages", "go/types", "go/ssa", "crypto/x509", "math/big"},
 			RuleDoc: map[string]string{
+				"R9.state":    "no memory of earlier calls: on the call tree only frozen package-level variables are touched (known exceptions listed with reasons), and no package-level object is handed out",
 				"R1.chain":    "chain verification gates the signature check; arguments; root pool provenance",
 				"R2.algo":     "decision table of the algorithm switch and key-type switch",
 				"R3.prefixes": "digest-identifier tables",
@@ -123,6 +124,7 @@ func lin(w *World, v ssa.Value, name func(ssa.Value) string) linForm {
 }
 
 func runC06(c *Ctx) {
+	stateRule(c, "R9.state", []*ssa.Function{c.w.Method("attestation/yubiattest", "Attestor", "Attest")}, knownState)
 	w := c.w
 	tablesC06(c)
 	attest := w.Method(attestPkg, "Attestor", "Attest")
